@@ -77,6 +77,19 @@ def problems():
                         out.append(f"asynchronous method: {r}")
                 except Exception as e:  # noqa
                     out.append(f"asynchronous method raised {e!r} (caller context not carried?)")
+                keys_before = set(vars(s))
+                await s.m(1)
+                if set(vars(s)) != keys_before:
+                    out.append(f"calling an asynchronous method planted {set(vars(s)) - keys_before} in the instance")
+                import copy as _copy
+                twin = _copy.copy(s)
+                twin.tag = "twin"
+                try:
+                    r = await twin.m(1)
+                    if r[0] != "twin":
+                        out.append(f"a copy of an instance whose asynchronous method was used runs the method on the original ({r[0]!r})")
+                except Exception as e:  # noqa
+                    out.append(f"asynchronous method on a copied instance raised {e!r}")
                 try:
                     r = await Svc.m(s, 1, key="q")          # the same method reached through the class
                     if r[:4] != ("t", 1, "q", 7):
